@@ -423,8 +423,10 @@ func (v *Validator) ValidateKillTimestampUpdate(oldTimestamp, timestamp *metav1.
 	allErrs := field.ErrorList{}
 	now := metav1.NewTime(Clock.Now())
 
-	// Cannot update KillTimestamp if already passed.
-	if !oldTimestamp.IsZero() && oldTimestamp.Before(&now) && !oldTimestamp.Equal(timestamp) {
+	// Cannot update KillTimestamp if already passed. The Job is killed once the
+	// current time reaches the KillTimestamp, so it has also passed when it is equal
+	// to the current time.
+	if !oldTimestamp.IsZero() && !now.Before(oldTimestamp) && !oldTimestamp.Equal(timestamp) {
 		allErrs = append(allErrs, field.Invalid(fldPath, timestamp, "field is immutable once passed"))
 	}
 
